@@ -81,6 +81,13 @@ class C04(FprCheck):
                               "first": rng.choice([1, 2, -1])})
             self.count("entry")
             yield {"t": "entry", "pool": pool, "opts": o, "steps": steps}
+        for _ in range(12 if self.tier == "quick" else 150):
+            # one fingerprinter processes a molecule and then molecules *derived from that object afterwards* (copies made after
+            # the run, then edited; renumbered copies keeping the name; copies with hydrogens removed / added) - objects that
+            # share everything RDKit copies along (names, private properties) but are other molecules
+            self.count("derived-after-run")
+            yield {"t": "derived", "ref": rng.choice(refs), "opts": MG.gen_opts(rng), "seed": rng.randrange(10 ** 6),
+                   "edits": [rng.choice(["isotope", "charge", "element", "renumber", "removehs", "copy", "rwmol"]) for _ in range(rng.randint(2, 4))]}
         for _ in range(1 if self.tier == "quick" else 6):
             # two fresh processes fingerprint the same molecules in different orders (process-global state - module-level tables,
             # class-level caches - would make the answer for a molecule depend on what the process met first)
@@ -177,6 +184,55 @@ class C04(FprCheck):
                             "step": k}
             if self._defaults() != defaults_before:
                 return {"key": "mutable-default-mutated", "what": "a mutable default argument changed: %s" % self._defaults()}
+            return None
+        if case["t"] == "derived":
+            import random
+            from rdkit import Chem
+            rr = random.Random(case["seed"])
+            o = case["opts"]
+            parent = Chem.Mol(MG.load_ref(case["ref"]))
+            if not MG.in_domain(parent, o):
+                return None
+            qs = [{"level": -1, "bits": None, "mask": []}]
+            fp = MG.make_fprinter(o)
+            cur = parent
+            fp.run(0, cur)
+            for k, e in enumerate(case["edits"]):
+                heavy = [a.GetIdx() for a in cur.GetAtoms() if a.GetAtomicNum() > 1]
+                if e == "renumber":
+                    p = list(range(cur.GetNumAtoms()))
+                    rr.shuffle(p)
+                    m = Chem.RenumberAtoms(cur, p)
+                    if cur.HasProp("_Name"):
+                        m.SetProp("_Name", cur.GetProp("_Name"))
+                elif e == "removehs":
+                    m = Chem.RemoveHs(cur)
+                elif e == "rwmol":
+                    rw = Chem.RWMol(cur)
+                    rw.GetAtomWithIdx(rr.choice(heavy)).SetIsotope(15)
+                    m = rw.GetMol()
+                else:
+                    m = Chem.Mol(cur)
+                    a = m.GetAtomWithIdx(rr.choice(heavy))
+                    if e == "isotope":
+                        a.SetIsotope(0 if a.GetIsotope() else 13 + a.GetAtomicNum())
+                    elif e == "charge":
+                        a.SetFormalCharge(0 if a.GetFormalCharge() else 1)
+                    elif e == "element":
+                        a.SetAtomicNum({6: 14, 7: 15, 8: 16, 9: 17, 16: 8, 17: 9}.get(a.GetAtomicNum(), a.GetAtomicNum()))
+                m.UpdatePropertyCache(strict=False)
+                if m.GetNumConformers() == 0 or not MG.in_domain(m, o):
+                    continue
+
+                def go(f):
+                    f.run(0, m)
+                    return MG.dump_run(f, qs)
+                x, y = attempt(lambda: go(fp)), attempt(lambda: go(MG.make_fprinter(o)))
+                if x != y:
+                    return {"key": "history-dependent:derived-molecule:" + e,
+                            "what": "step %d: a molecule derived (%s) from the one the fingerprinter just processed gets another fingerprint "
+                                    "than from a fresh fingerprinter" % (k, e), "step": k}
+                cur = m
             return None
         if case["t"] == "entry":
             from e3fp.fingerprint.generate import fprints_dict_from_mol
